@@ -235,7 +235,12 @@ type Probe struct {
 	MappedSeen  map[string]map[string]ObsList // q: primary key -> mapped key -> observation
 	ReadErrs    []string
 	MapCalls    int
-	captureRT   bool
+	// pending input update, applied by the controller itself at its next reconcile (C17)
+	pendingInputs []InputSpec
+	pendingSet    bool
+	pendingErr    error
+	pendingDone   bool
+	captureRT     bool
 	rt          controller.Runtime // the runtime handle of the running plain controller (C17 drives UpdateInputs through it)
 	onReconcile func(p *Probe, r controller.Runtime) error
 	fault       func(p *Probe, where string) error
@@ -292,6 +297,14 @@ func (p *Probe) Run(ctx context.Context, r controller.Runtime, _ *zap.Logger) er
 		}
 		p.Reconciles++
 		seq := p.Reconciles
+		if p.pendingSet {
+			p.pendingSet = false
+			p.pendingErr = r.UpdateInputs(toInputs(p.pendingInputs))
+			if p.pendingErr == nil {
+				p.curInputs = append([]InputSpec{}, p.pendingInputs...)
+			}
+			p.pendingDone = true
+		}
 		if p.Spec.MoreAt > 0 && seq == p.Spec.MoreAt && (len(p.Spec.More) > 0 || p.Spec.KindChange != "") {
 			p.curInputs = append(append([]InputSpec{}, p.Spec.Inputs...), p.Spec.More...)
 			if p.Spec.KindChange != "" {
